@@ -294,6 +294,9 @@ _public_ int m_mod_ps_subscribe(m_mod_t *mod, const char *topic, m_src_flags fla
             if (old_sub) {
                 if (old_sub->flags == flags) {
                     /* Only update userptr */
+                    if ((flags & M_SRC_AUTOFREE) && old_sub->userptr != userptr) {
+                        memhook._free((void *)old_sub->userptr);
+                    }
                     old_sub->userptr = userptr;
                     regfree(&regex);
                     return 0;
